@@ -5,7 +5,7 @@
    2. aeval (canon t) = eval_nodes t outside class K1 (the right-nested and/or
       chain has the value of the left-nested one).
    3. on a small operand set rsass's per-node operators agree with the reference
-      outside classes K3/K4 (finite sweep), hence the main theorem. *)
+      outside class K4 (finite sweep), hence the main theorem. *)
 From Coq Require Import List NArith ZArith Bool Lia Arith.PeanoNat.
 From Flocq Require Import Core.Core IEEE754.BinarySingleNaN IEEE754.Binary IEEE754.Bits.
 From RV Require Import Base.F64 Base.FMod Base.ListX Spec.SassExpr Model.ExprParse Model.ExprEval Model.ExprTie Run.C15.
@@ -669,8 +669,6 @@ Fixpoint all_small (t : tree) : bool :=
   | _ => true
   end.
 
-Definition k3_pair (o : binop) (a b : val) : bool :=
-  match o, a, b with BMod, VNum x, VNum y => mod_zero_opposite x y | _, _, _ => false end.
 Definition k4_pair (o : binop) (a b : val) : bool :=
   is_relational o && (is_vbool a || is_vbool b).
 
@@ -685,7 +683,7 @@ Definition agree_b (s m : val) : bool :=
   end.
 
 Definition node_pred (p q : val * val) (o : binop) : bool :=
-  k3_pair o (fst p) (fst q) || k4_pair o (fst p) (fst q)
+  k4_pair o (fst p) (fst q)
   || agree_b (spec_bin o (fst p) (fst q)) (m_bin o (snd p) (snd q)).
 Definition node_row (p q : val * val) : bool := forallb (node_pred p q) strict_ops.
 
@@ -699,12 +697,12 @@ Lemma un_sweep : forallb un_pred small_pairs = true.
 Proof. vm_compute. reflexivity. Qed.
 
 Lemma node_small o a a' b b' : In (a, a') small_pairs -> In (b, b') small_pairs -> In o strict_ops ->
-  k3_pair o a b = false -> k4_pair o a b = false -> agree_b (spec_bin o a b) (m_bin o a' b') = true.
+  k4_pair o a b = false -> agree_b (spec_bin o a b) (m_bin o a' b') = true.
 Proof.
-  intros Ha Hb Ho K3 K4.
+  intros Ha Hb Ho K4.
   pose proof (sweep2 small_pairs small_pairs node_row node_sweep _ _ Ha Hb) as H.
   unfold node_row in H. rewrite forallb_forall in H. specialize (H o Ho).
-  unfold node_pred in H. cbn [fst snd] in H. rewrite K3, K4 in H. exact H.
+  unfold node_pred in H. cbn [fst snd] in H. rewrite K4 in H. exact H.
 Qed.
 
 Lemma small_ok_cases v : small_ok v = true -> v = VErr \/ v = VOther \/ In v smalls.
@@ -743,14 +741,14 @@ Lemma agree_err m : agree_b VErr m = true -> m = VErr.
 Proof. cbn. apply val_eqb_eq. Qed.
 
 (* node by node: the tree evaluated with rsass's operators gives what the reference gives *)
-Theorem nodes_agree t : known_K3 t = false -> known_K4 t = false -> all_small t = true ->
+Theorem nodes_agree t : known_K4 t = false -> all_small t = true ->
   agree_b (eval_spec t) (eval_nodes t) = true.
 Proof.
-  induction t as [n|b|c IH|c IH|o l IHl r IHr]; intros K3 K4 S.
+  induction t as [n|b|c IH|c IH|o l IHl r IHr]; intros K4 S.
   - cbn [eval_spec teval eval_nodes agree_b]. unfold zeq. rewrite val_eqb_refl. reflexivity.
   - destruct b; reflexivity.
   - pose proof S as S'. cbn [all_small] in S. apply andb_true_iff in S. destruct S as [S0 S].
-    specialize (IH K3 K4 S).
+    specialize (IH K4 S).
     change (eval_spec (TNeg c)) with (spec_neg (eval_spec c)).
     change (eval_nodes (TNeg c)) with (m_neg (eval_nodes c)).
     destruct (small_ok_cases _ (all_small_top _ S)) as [E|[E|E]].
@@ -759,7 +757,7 @@ Proof.
     + pose proof (sweep1 small_pairs un_pred un_sweep _ (agree_pair _ _ E IH)) as U.
       unfold un_pred in U. cbn [fst snd] in U. repeat (apply andb_true_iff in U; destruct U as [U ?]). exact U.
   - cbn [all_small] in S. apply andb_true_iff in S. destruct S as [S0 S].
-    specialize (IH K3 K4 S).
+    specialize (IH K4 S).
     change (eval_spec (TNot c)) with (spec_not (eval_spec c)).
     change (eval_nodes (TNot c)) with (m_not (eval_nodes c)).
     destruct (small_ok_cases _ (all_small_top _ S)) as [E|[E|E]].
@@ -767,11 +765,10 @@ Proof.
     + rewrite E. reflexivity.
     + pose proof (sweep1 small_pairs un_pred un_sweep _ (agree_pair _ _ E IH)) as U.
       unfold un_pred in U. cbn [fst snd] in U. repeat (apply andb_true_iff in U; destruct U as [U ?]). assumption.
-  - unfold known_K3 in K3. apply known_bin in K3. destruct K3 as (K3n & K3l & K3r).
-    unfold known_K4 in K4. apply known_bin in K4. destruct K4 as (K4n & K4l & K4r).
+  - unfold known_K4 in K4. apply known_bin in K4. destruct K4 as (K4n & K4l & K4r).
     cbn [all_small] in S. apply andb_true_iff in S. destruct S as [S0 S].
     apply andb_true_iff in S. destruct S as [Sl Sr].
-    specialize (IHl K3l K4l Sl). specialize (IHr K3r K4r Sr).
+    specialize (IHl K4l Sl). specialize (IHr K4r Sr).
     pose proof (all_small_top _ Sl) as Sa. pose proof (all_small_top _ Sr) as Sb.
     destruct (is_andor o) eqn:Ho.
     + (* and / or *)
@@ -821,11 +818,11 @@ Proof.
 Qed.
 
 Theorem main t :
-  known_K1 t = false -> known_K2 t = false -> known_K3 t = false -> known_K4 t = false ->
+  known_K1 t = false -> known_K2 t = false -> known_K4 t = false ->
   all_small t = true ->
   agree_b (eval_spec t) (model_value t) = true.
 Proof.
-  intros K1 K2 K3 K4 S. rewrite grouping by auto. apply nodes_agree; auto.
+  intros K1 K2 K4 S. rewrite grouping by auto. apply nodes_agree; auto.
 Qed.
 
 (* ---------- refutations of the full statement, and an exhaustive sweep ---------- *)
@@ -836,8 +833,9 @@ Lemma refuted_and_or : exists t, known_K1 t = true /\ agree_b (eval_spec t) (mod
 Proof. exists (TBin BOr (TBin BAnd (TBool false) (TBool false)) (TBool true)). vm_compute. auto. Qed.
 Lemma refuted_eq_rel : exists t, known_K2 t = true /\ agree_b (eval_spec t) (model_value t) = false.
 Proof. exists (TBin BEq (TBool true) (TBin BLt (TNum 1) (TNum 2))). vm_compute. auto. Qed.
-Lemma refuted_mod : exists t, known_K3 t = true /\ agree_b (eval_spec t) (model_value t) = false.
-Proof. exists (TBin BMod (TNeg (TNum 2)) (TNum 2)). vm_compute. auto. Qed.
+(* `%` with operands of opposite sign and zero remainder (former class K3, fixed by cc06893) *)
+Lemma mod_fixed : agree_b (eval_spec (TBin BMod (TNeg (TNum 2)) (TNum 2))) (model_value (TBin BMod (TNeg (TNum 2)) (TNum 2))) = true.
+Proof. vm_compute. reflexivity. Qed.
 Lemma refuted_rel_bool : exists t, known_K4 t = true /\ agree_b (eval_spec t) (model_value t) = false.
 Proof.
   exists (TBin BEq (TBin BLt (TBool true) (TNum 1)) (TBin BLt (TBool true) (TNum 1))). vm_compute. auto.
